@@ -1052,26 +1052,31 @@ fn large_flat_case(rep: &mut Report, i: u64, seed: u64) {
         let (lo, hi) = if i < 4 { (99999999.999999, 100000000.05) } else { (999999999.0, 1000000000.000002) };
         a = if i % 2 == 0 { lo } else { hi };
         b = if i % 2 == 0 { hi } else { lo };
-        tol = if (i / 2) % 2 == 0 { 1e-8 } else { 1e-12 };
+        tol = if i < 4 { [1e-8, 1e-12][((i / 2) % 2) as usize] } else { 1e-10 };
         k1 = 0.1;
         k2 = 2.0;
-        n0 = 1.0;
+        n0 = 0.99;
     } else {
         let mut rng = Rng::for_case(seed, "c07-large-flat", i);
-        let r = rng.log10(7.0, 9.3) * rng.sign();
-        let kind = if rng.bool() { Kind::Cubic } else { Kind::Quintic };
-        f = Func::simple(kind, r, rng.sign() * rng.r(0.2, 3.0), 1.0);
-        let near = rng.log10(-7.0, -4.0);
-        let far = rng.log10(-3.0, 0.0);
+        // half of the cases in the narrow regime where the rounding of the interpolation point matters most:
+        // root 1e8 ... 2e9, near end about 1e-6 away, far end 0.05 ... 1 away, documentation parameters
+        let narrow = rng.bool();
+        let r = if narrow { rng.log10(8.0, 9.3) } else { rng.log10(7.0, 9.3) } * rng.sign();
+        // (integer roots in a third of the cases: the grid around them is the coarsest relative to the offsets)
+        let r = if rng.below(3) == 0 { r.round() } else { r };
+        let kind = if narrow || rng.bool() { Kind::Cubic } else { Kind::Quintic };
+        f = Func::simple(kind, r, if narrow { 1.0 } else { rng.sign() * rng.r(0.2, 3.0) }, 1.0);
+        let near = if narrow { 1e-6 * rng.r(0.5, 4.0) } else { rng.log10(-7.0, -4.0) };
+        let far = if narrow { rng.r(0.05, 1.0) } else { rng.log10(-3.0, 0.0) };
         let (lo, hi) = if rng.bool() { (r - near, r + far) } else { (r - far, r + near) };
         let swap = rng.bool();
         a = if swap { hi } else { lo };
         b = if swap { lo } else { hi };
-        tol = rng.log10(-12.0, -6.0);
+        tol = if narrow { rng.log10(-10.0, -8.0) } else { rng.log10(-12.0, -6.0) };
         let pr = gen_itp_params(&mut rng);
-        k1 = if rng.bool() { 0.1 } else { pr.0 };
-        k2 = if rng.bool() { 2.0 } else { pr.1 };
-        n0 = pr.2;
+        k1 = if narrow || rng.bool() { 0.1 } else { pr.0 };
+        k2 = if narrow || rng.bool() { 2.0 } else { pr.1 };
+        n0 = if narrow { *rng.pick(&[0.99, 1.0, 0.0, 0.5]) } else { pr.2 };
     }
     let expect = match classify(&f, a, b) {
         Some(e) => e,
@@ -1102,7 +1107,7 @@ pub fn stages(ctx: &Ctx) -> Vec<Stage> {
         let mut rng = Rng::for_case(seed, "c07-random", i);
         random_case(&mut rng, rep);
     }));
-    st.push(Stage::new("large-flat-root-near-an-end", tier.pick(60_000, 1_000_000), move |i, rep| large_flat_case(rep, i, seed)));
+    st.push(Stage::new("large-flat-root-near-an-end", tier.pick(400_000, 4_000_000), move |i, rep| large_flat_case(rep, i, seed)));
     st.push(Stage::new("huge-values", tier.pick(30_000, 300_000), move |i, rep| huge_value_case(rep, i, seed)));
     // exact-hit grid: complete in both tiers; thorough adds m <= 6, more tolerances, and the same
     // grid translated by 64 (dyadic, far from zero)
@@ -1123,7 +1128,7 @@ pub fn thresholds(ctx: &Ctx, rep: &Report) -> Vec<Threshold> {
     t.push(Threshold { what: "roots of size 1e5 ... 1e9 with a tolerance at or below the spacing of the floats".into(), required: ctx.tier.pick(800.0, 8_000.0), observed: rep.counter("problems/root_of_size_1e5_to_1e9_with_a_tolerance_near_the_float_spacing") as f64 });
     t.push(Threshold { what: "valid brackets already narrower than the tolerance".into(), required: ctx.tier.pick(500.0, 5_000.0), observed: rep.counter("problems/bracket_narrower_than_the_tolerance") as f64 });
     t.push(Threshold { what: "brackets with a finite end value above 1e290".into(), required: ctx.tier.pick(15_000.0, 150_000.0), observed: rep.counter("problems/huge_finite_end_value") as f64 });
-    t.push(Threshold { what: "flat functions with a root of size 1e7 ... 2e9 close to one end of the bracket".into(), required: ctx.tier.pick(40_000.0, 700_000.0), observed: rep.counter("problems/flat_function_with_a_root_of_size_1e7_to_2e9_near_one_end") as f64 });
+    t.push(Threshold { what: "flat functions with a root of size 1e7 ... 2e9 close to one end of the bracket".into(), required: ctx.tier.pick(250_000.0, 2_500_000.0), observed: rep.counter("problems/flat_function_with_a_root_of_size_1e7_to_2e9_near_one_end") as f64 });
     t.push(Threshold { what: "brackets with finite values above 1e290 at BOTH ends".into(), required: ctx.tier.pick(7_000.0, 70_000.0), observed: rep.counter("problems/huge_finite_values_at_both_ends") as f64 });
     t.push(Threshold { what: "steep exponentials whose finite end values differ by more than 1e17".into(), required: ctx.tier.pick(1_000.0, 10_000.0), observed: rep.counter("problems/steep_exponential_with_end_values_1e17_apart") as f64 });
     t.push(Threshold { what: "steep exponentials with an end value that overflows to infinity".into(), required: ctx.tier.pick(100.0, 1_000.0), observed: rep.counter("problems/steep_exponential_with_an_infinite_end_value") as f64 });
